@@ -48,4 +48,20 @@ def decodeAtt : List Char → List Char
   | '&' :: 'a' :: 'p' :: 'o' :: 's' :: ';' :: rest => '\'' :: decodeAtt rest
   | c :: rest => c :: decodeAtt rest
 
+/-! ### character data (text content, `preserve_text`) -/
+
+/-- usvg `write_text` path: `text.replace('&', "&amp;")`, then xmlwriter `escape_text`: `<` → `&lt;` -/
+def writeTextValue (s : List Char) : List Char :=
+  (s.flatMap fun c => if c = '&' then amp else [c]).flatMap fun c => if c = '<' then lt else [c]
+
+/-- XML character data: no `<`, every `&` starts a predefined entity reference -/
+def wfText : List Char → Bool
+  | [] => true
+  | '&' :: 'a' :: 'm' :: 'p' :: ';' :: rest => wfText rest
+  | '&' :: 'l' :: 't' :: ';' :: rest => wfText rest
+  | '&' :: 'g' :: 't' :: ';' :: rest => wfText rest
+  | '&' :: 'q' :: 'u' :: 'o' :: 't' :: ';' :: rest => wfText rest
+  | '&' :: 'a' :: 'p' :: 'o' :: 's' :: ';' :: rest => wfText rest
+  | c :: rest => c != '&' && c != '<' && wfText rest
+
 end Resvg.Writer
